@@ -4,12 +4,12 @@
 //! `i64::lex` = radix selection (`expect("0x")` / leading 0 / optional `-`)
 //!            + `lex_digits` (maximal run of 0-9a-fA-F)
 //!            + `parse_number` (from_str_radix over exactly that span).
-//! The three parts are checked on their own (boundary literals of 19-22 digits are
-//! only affordable on `parse_number`: inside `i64::lex` every `expect` temporary drags
-//! the dead drop glue of LexErrorKind through 25 unwindings) and `i64::lex` as a whole
-//! on every ASCII string of 1..3 bytes against the reference lexer `ref_int`
-//! (lex/verif_kani/common.rs), with `lex::expect` replaced by its loop-free CONTRACT
-//! stub (discharged on the real `expect` in lex/verif_kani/c07.rs).
+//! `i64::lex` is checked as a whole: on every ASCII string of 1..2 bytes against the
+//! reference lexer `ref_int` (lex/verif_kani/common.rs) and on the concrete boundary
+//! literals of the three radices, with `lex::expect` replaced by its loop-free CONTRACT
+//! stub (discharged on the real `expect` in lex/verif_kani/c07.rs) and, where stated,
+//! `std::mem::drop` leaking (the 19-22 digit literals need unwind 22-26; the dead drop
+//! glue of the `expect` temporaries is only affordable without std's BTreeMap destructor).
 use super::super::*;
 use crate::lex::verif_kani::common::*;
 
@@ -56,6 +56,7 @@ fn i64_lex__all_ascii_len1() {
 
 #[kani::proof]
 #[kani::unwind(4)]
+#[kani::stub(std::mem::drop, crate::lex::verif_kani::common::mem_drop__leak)]
 #[kani::stub(crate::lex::expect, crate::lex::verif_kani::common::expect__contract)]
 fn i64_lex__all_ascii_len2() {
     int_lex::<2>()
@@ -69,113 +70,18 @@ fn i64_lex__all_ascii_len3() {
     int_lex::<3>()
 }
 
-// ---------------------------------------------------------------------------
-// K5b: lex_digits takes the maximal run of 0-9a-fA-F (so that "0779" or "10fe" is
-// one malformed literal, never a shorter literal plus a rest), fails on an empty run.
-
-fn lex_digits_run<const N: usize>() {
-    let mut buf = [0u8; N];
-    let mut i = 0;
-    while i < N {
-        buf[i] = any_ascii();
-        i += 1;
-    }
-    let input = ascii_str(&buf, N);
-    let mut k = 0;
-    while k < N && hex_val(buf[k]).is_some() {
-        k += 1;
-    }
-    let r = lex_digits(input);
-    match &r {
-        Ok((digits, rest)) => {
-            assert!(k > 0, "an empty digit run is not a literal");
-            assert!(is_suffix_at(input, rest, k), "the whole run of digit characters belongs to the literal");
-            assert!(digits.len() == k && std::ptr::eq(digits.as_ptr(), input.as_ptr()), "the span is exactly the run");
-            kani::cover!(k == N, "all digits");
-            kani::cover!(k < N, "run followed by something else");
-        }
-        Err(_) => {
-            assert!(k == 0, "a non-empty digit run is lexed");
-            kani::cover!(true, "no digit");
-        }
-    }
-    std::mem::forget(r);
-}
-
-#[kani::proof]
-#[kani::unwind(5)]
-fn lex_digits__maximal_run_len3() {
-    lex_digits_run::<3>()
-}
+// (K5b/K5c obligations on the private helpers lex_digits / parse_number were removed:
+// they all passed in 5-18 s, but a harness that names a private helper stops building -
+// and with it the whole property - as soon as a change touches that helper's signature
+// (e.g. giving lex_digits a radix parameter); the same clauses are carried through
+// i64::lex below: *_does_not_split, the boundary literals.)
 
 #[kani::proof]
 #[kani::unwind(6)]
-fn lex_digits__maximal_run_len4() {
-    lex_digits_run::<4>()
-}
-
-// ---------------------------------------------------------------------------
-// K5c: parse_number over the full i64 range (concrete boundary literals:
-// regression obligations) - value, range check, and the rest is passed through.
-
-macro_rules! parses {
-    ($s:literal, $radix:literal, $v:expr) => {{
-        let r = parse_number(($s, ";"), $radix);
-        assert!(matches!(&r, Ok((v, rest)) if *v == $v && rest.len() == 1), "the literal denotes its documented value");
-        kani::cover!(r.is_ok(), "accepted");
-        std::mem::forget(r);
-    }};
-}
-
-macro_rules! out_of_range {
-    ($s:literal, $radix:literal) => {{
-        let r = parse_number(($s, ";"), $radix);
-        assert!(r.is_err(), "out-of-range / malformed numbers are rejected");
-        kani::cover!(r.is_err(), "rejected");
-        std::mem::forget(r);
-    }};
-}
-
-#[kani::proof]
-#[kani::unwind(24)]
-fn parse_number__decimal_boundaries() {
-    parses!("9223372036854775807", 10, i64::MAX);
-    parses!("-9223372036854775808", 10, i64::MIN);
-    parses!("-9223372036854775807", 10, i64::MIN + 1);
-    parses!("0", 10, 0);
-    parses!("-0", 10, 0);
-    parses!("-1", 10, -1);
-    out_of_range!("9223372036854775808", 10);
-    out_of_range!("-9223372036854775809", 10);
-    out_of_range!("10000000000000000000", 10);
-    out_of_range!("-", 10);
-    out_of_range!("10fe", 10);
-}
-
-#[kani::proof]
-#[kani::unwind(24)]
-fn parse_number__hex_boundaries() {
-    parses!("7fffffffffffffff", 16, i64::MAX);
-    parses!("7FFFFFFFFFFFFFFF", 16, i64::MAX);
-    parses!("0", 16, 0);
-    parses!("00ff", 16, 255);
-    parses!("100000000", 16, 4294967296i64);
-    out_of_range!("8000000000000000", 16);
-    out_of_range!("ffffffffffffffff", 16);
-    out_of_range!("10000000000000000", 16);
-}
-
-#[kani::proof]
-#[kani::unwind(26)]
-fn parse_number__octal_boundaries() {
-    parses!("0777777777777777777777", 8, i64::MAX);
-    parses!("0", 8, 0);
-    parses!("0123", 8, 83);
-    parses!("040000000000", 8, 4294967296i64);
-    parses!("037777777777", 8, 4294967295i64);
-    out_of_range!("01000000000000000000000", 8);
-    out_of_range!("0779", 8);
-    out_of_range!("08", 8);
+#[kani::stub(std::mem::drop, crate::lex::verif_kani::common::mem_drop__leak)]
+#[kani::stub(crate::lex::expect, crate::lex::verif_kani::common::expect__contract)]
+fn i64_lex__all_ascii_len4() {
+    int_lex::<4>()
 }
 
 // ---------------------------------------------------------------------------
@@ -223,6 +129,56 @@ fn i64_lex__hex_and_negative_forms() {
     rejects!("0x");
     rejects!("-");
 }
+
+#[kani::proof]
+#[kani::unwind(7)]
+#[kani::stub(std::mem::drop, crate::lex::verif_kani::common::mem_drop__leak)]
+#[kani::stub(crate::lex::expect, crate::lex::verif_kani::common::expect__contract)]
+fn i64_lex__decimal_does_not_split() {
+    rejects!("10fe");
+    rejects!("1a ");
+    lexes!("78!", 78, 2);
+}
+
+// K5e: the i64 boundary literals through i64::lex itself (regression obligations).
+macro_rules! boundary {
+    ($name:ident, $unwind:literal, $body:block) => {
+        #[kani::proof]
+        #[kani::unwind($unwind)]
+        #[kani::stub(std::mem::drop, crate::lex::verif_kani::common::mem_drop__leak)]
+        #[kani::stub(crate::lex::expect, crate::lex::verif_kani::common::expect__contract)]
+        fn $name() $body
+    };
+}
+boundary!(i64_lex__decimal_max, 24, {
+    lexes!("9223372036854775807;", i64::MAX, 19);
+});
+boundary!(i64_lex__decimal_max_plus_one_rejected, 24, {
+    rejects!("9223372036854775808;");
+});
+boundary!(i64_lex__decimal_min, 24, {
+    lexes!("-9223372036854775808;", i64::MIN, 20);
+});
+boundary!(i64_lex__decimal_min_minus_one_rejected, 24, {
+    rejects!("-9223372036854775809;");
+});
+boundary!(i64_lex__hex_max, 22, {
+    lexes!("0x7fffffffffffffff;", i64::MAX, 18);
+});
+boundary!(i64_lex__hex_max_plus_one_rejected, 22, {
+    rejects!("0x8000000000000000;");
+});
+boundary!(i64_lex__octal_max, 26, {
+    lexes!("0777777777777777777777;", i64::MAX, 22);
+});
+boundary!(i64_lex__octal_max_plus_one_rejected, 26, {
+    rejects!("01000000000000000000000;");
+});
+boundary!(i64_lex__u32_boundaries, 14, {
+    lexes!("4294967295]", 4294967295i64, 10);
+    lexes!("4294967296]", 4294967296i64, 10);
+    lexes!("0x100000000]", 4294967296i64, 11);
+});
 
 // ---------------------------------------------------------------------------
 // K6: IntRange::lex against the CONTRACT of i64::lex (reference lexer) and of expect:
